@@ -1,0 +1,30 @@
+//go:build verif
+
+package zuc
+
+// Read-only exports for the verification harness (build tag "verif" only).
+
+func VerifS0() [256]byte { return sbox0 }
+
+func VerifS1() [256]byte { return sbox1 }
+
+func VerifD() [16]uint32 { return ek_d }
+
+func VerifL1(x uint32) uint32 { return l1(x) }
+
+func VerifL2(x uint32) uint32 { return l2(x) }
+
+// VerifState returns the LFSR cells and the two FSM registers after initialisation followed by n
+// work-mode clocks (n = 0: right after the 32 initialisation rounds).
+func VerifState(k, iv []byte, n int) (s [16]uint32, r [2]uint32) {
+	l := &Lfsr{}
+	br := &Br{}
+	f := &Fsm{}
+	l.initialization(k, iv, br, f)
+	for i := 0; i < n; i++ {
+		br.bitReorganization(*l)
+		f.nonlinF(*br)
+		l.state("WorkMode", uint32(0))
+	}
+	return l.s, f.r
+}
